@@ -57,38 +57,106 @@ func runC12(c *an.Ctx) {
 
 	// ---------------------------------------------------------------- C12.recover
 	if rec := c.Fn("C12.recover", "(*Runtime).recover"); rec != nil {
-		stores, repanicOK, otherPanic := false, 0, false
-		an.InspectOwn(rec, func(n ast.Node) bool {
-			switch x := n.(type) {
-			case *ast.AssignStmt:
-				if len(x.Lhs) == 2 && len(x.Rhs) == 1 {
-					if st, ok := an.Unparen(x.Lhs[0]).(*ast.StarExpr); ok && an.Norm(rec, st.X) == "$p0" {
-						if ta, ok := an.Unparen(x.Rhs[0]).(*ast.TypeAssertExpr); ok && an.Str(ta.Type) == "error" {
-							stores = true
-						}
-					}
-				}
-			case *ast.CallExpr:
-				if an.IsCallTo(info, x, "builtin.panic") {
-					if id, ok := an.Unparen(x.Args[0]).(*ast.Ident); ok {
-						reraise := false
-						for _, d := range an.LocalDefs(rec, an.ObjOf(info, id)) {
-							if d != nil && an.CalleeName(info, callOf(d)) == "builtin.recover" {
-								reraise = true
+		// roles: the variables holding the recovered value — defined by recover(), or bound by a type switch over one
+		recVars := map[types.Object]bool{}
+		for changed := true; changed; {
+			changed = false
+			an.InspectOwn(rec, func(n ast.Node) bool {
+				switch x := n.(type) {
+				case *ast.AssignStmt:
+					if len(x.Lhs) == 1 && len(x.Rhs) == 1 {
+						if id, ok := x.Lhs[0].(*ast.Ident); ok {
+							r := an.Unparen(x.Rhs[0])
+							isRec := an.CalleeName(info, callOf(r)) == "builtin.recover"
+							if rid, ok := r.(*ast.Ident); ok && recVars[an.ObjOf(info, rid)] {
+								isRec = true
+							}
+							if o := an.ObjOf(info, id); isRec && o != nil && !recVars[o] {
+								recVars[o] = true
+								changed = true
 							}
 						}
-						if reraise {
-							repanicOK++
-							return true
+					}
+				case *ast.TypeSwitchStmt:
+					var tag ast.Expr
+					switch a := x.Assign.(type) {
+					case *ast.AssignStmt:
+						if ta, ok := an.Unparen(a.Rhs[0]).(*ast.TypeAssertExpr); ok {
+							tag = ta.X
+						}
+					case *ast.ExprStmt:
+						if ta, ok := an.Unparen(a.X).(*ast.TypeAssertExpr); ok {
+							tag = ta.X
 						}
 					}
-					otherPanic = true
+					if id, ok := an.Unparen(tag).(*ast.Ident); ok && recVars[an.ObjOf(info, id)] {
+						for _, cc := range x.Body.List {
+							if o := info.Implicits[cc]; o != nil && !recVars[o] {
+								recVars[o] = true
+								changed = true
+							}
+						}
+					}
+				}
+				return true
+			})
+		}
+		isRecovered := func(e ast.Expr) bool {
+			e = an.Unparen(e)
+			if ta, ok := e.(*ast.TypeAssertExpr); ok {
+				e = an.Unparen(ta.X)
+			}
+			id, ok := e.(*ast.Ident)
+			return ok && recVars[an.ObjOf(info, id)]
+		}
+		otherPanic := token.NoPos
+		hooks := an.Hooks{
+			Stmt: func(x *an.Explorer, n ast.Node, st *an.State) {
+				// *err, ok = recovered.(error)
+				if as, ok := n.(*ast.AssignStmt); ok && len(as.Rhs) == 1 && len(as.Lhs) >= 1 {
+					if star, ok := an.Unparen(as.Lhs[0]).(*ast.StarExpr); ok && an.Norm(rec, star.X) == "$p0" && isRecovered(as.Rhs[0]) {
+						st.Set("stored", "1")
+					}
+				}
+			},
+			Branch: func(x *an.Explorer, cond ast.Expr, val bool, st *an.State) {
+				// recovered != nil (true) / recovered == nil (false)
+				if b, ok := an.Unparen(cond).(*ast.BinaryExpr); ok && (b.Op == token.NEQ || b.Op == token.EQL) && an.Str(b.Y) == "nil" && isRecovered(b.X) {
+					if val == (b.Op == token.NEQ) {
+						st.Set("rec", "1")
+					}
+				}
+			},
+			Call: func(x *an.Explorer, call *ast.CallExpr, st *an.State) {
+				if an.IsCallTo(info, call, "builtin.panic") && len(call.Args) == 1 && !isRecovered(call.Args[0]) && !otherPanic.IsValid() {
+					otherPanic = call.Pos()
+				}
+			},
+		}
+		x := p.NewExplorer(rec, hooks)
+		x.Run(nil)
+		c.States += x.Visited
+		stores, sawErrPath := true, false
+		var trail []string
+		for _, ex := range x.Exits {
+			if ex.Kind != an.ExitReturn {
+				continue
+			}
+			if ex.State.Get("rec") != "" {
+				sawErrPath = true
+				if ex.State.Get("stored") == "" {
+					stores, trail = false, ex.Trail
 				}
 			}
-			return true
-		})
-		c.Check(stores && !otherPanic, "C12.recover", "(*Runtime).recover/handler", rec.Pos(), "a recovered error is stored into *err; only the recovered value itself is ever re-panicked",
-			"Runtime.recover does not store the recovered error into the caller's error result (or panics with something else than the recovered value)")
+		}
+		if len(recVars) == 0 || !sawErrPath {
+			stores = false
+		}
+		if stores && !otherPanic.IsValid() {
+			c.OK("C12.recover", "(*Runtime).recover/handler", rec.Pos(), "whenever something was recovered and the handler returns, the recovered error was stored into *err; only the recovered value itself is ever re-panicked")
+		} else {
+			c.Bad("C12.recover", "(*Runtime).recover/handler", rec.Pos(), trail, "Runtime.recover can return after recovering a failure without storing the recovered error into the caller's error result (or panics with something else than the recovered value)")
+		}
 	}
 	if ex := c.Fn("C12.recover", "(*Template).Execute"); ex != nil {
 		first := true
